@@ -11,6 +11,7 @@
    Unix/TLS/SSH connections. *)
 From NC Require Import Model.Base Model.Close Spec.CloseSpec Proofs.CloseProofs Proofs.CloseThms Proofs.CloseSsh.
 From NC Require Import Proofs.CloseWake.
+From NC Require Import Model.CloseCallers Proofs.CloseCallersProofs.
 
 (* after close() returned to a client thread the session reports itself disconnected *)
 Theorem C12_disconnected : forall t ls s,
@@ -351,4 +352,131 @@ Example C12_ex_blocked_read : let s := st_of Tls ex_blocked_prefix in
 Proof.
   intro s; repeat match goal with |- _ /\ _ => split | |- let _ := _ in _ => intro end;
     first [ vm_compute; reflexivity | vm_compute; discriminate ].
+Qed.
+
+(* ---------------- who calls close() (Model/CloseCallers.v) ---------------- *)
+(* The one thing close() asks about its caller is `self is not threading.current_thread()`.  Every
+   caller that is not the session's OWN thread - the main thread, an application thread, the thread
+   of ANOTHER session whose listener closes this one - executes close() exactly as the actor Client *)
+Theorem C12_caller_as_client : forall c, is_own c = false ->
+  forall s st did,
+    step s (CStep (actor_of c) st did) = step s (CStep Client st did) /\
+    step s (CloseRet (actor_of c)) = step s (CloseRet Client).
+Proof. exact c12_caller_as_client. Qed.
+Print Assumptions C12_caller_as_client.
+
+(* ... in particular the wait for the session thread: only the session's own thread skips it; any
+   other caller that is past the join statement leaves a worker that has ended behind *)
+Theorem C12_close_waits_unless_own : forall c s did s',
+  do_cstep s (actor_of c) JoinW did = Some s' ->
+  (is_own c = false -> not_alive (worker s) = true /\ s' = s) /\
+  (is_own c = true -> did = false /\ s' = s).
+Proof. exact c12_close_waits_unless_own. Qed.
+Print Assumptions C12_close_waits_unless_own.
+
+(* (Proofs/CloseCallersProofs.v c12_caller_released: for every caller c with is_own c = false, once
+   CloseRet (actor_of c) occurred the session is released, the peer saw EOF, no late callback, the
+   worker WExited, requests refused - by C12_caller_as_client and the theorems above; it is the lemma
+   C12_foreign_close_released below rests on.) *)
+
+(* Two sessions A and B in one process; a listener of one (it runs on that session's thread) closes
+   the other: [FCall x; FStmt x ..; FRet x] are steps of the OTHER session's thread, which makes no
+   step of its own run() meanwhile.  What each session sees of a run of the pair is a run of
+   Model/Close.v in which the foreign close() is a CLIENT close(): every theorem above applies to
+   each of the two sessions. *)
+Theorem C12_two_sessions_project : forall ls y y' x,
+  accepts2 y ls = Some y' -> accepts (sess y x) (project x ls) = Some (sess y' x).
+Proof. exact c12_two_sessions_project. Qed.
+Print Assumptions C12_two_sessions_project.
+
+(* once the close() a listener of the other session called on x has returned, x is released: it is
+   disconnected, its handle closed towards the peer, its worker thread ended, requests refused *)
+Theorem C12_foreign_close_released : forall ta tb ls y x,
+  accepts2 (init2 ta tb) ls = Some y -> In (FRet x) ls ->
+  released (sess y x) /\ peer_saw_eof (sess y x) = true /\ callbacks_after_close (sess y x) = 0%N /\
+  (In Start (project x ls) -> worker (sess y x) = WExited) /\
+  (forall rid, step (sess y x) (Submit rid true) = None).
+Proof. exact c12_foreign_close_released. Qed.
+Print Assumptions C12_foreign_close_released.
+
+(* ... and no step of x's worker - so no invocation of a listener of x - follows that return *)
+Theorem C12_foreign_no_late_listener : forall ta tb l1 l2 y x,
+  accepts2 (init2 ta tb) (l1 ++ FRet x :: l2) = Some y ->
+  forall l, In (Own x l) l2 -> is_worker_label l = false /\ is_callback_label l = false.
+Proof. exact c12_foreign_no_late_listener. Qed.
+Print Assumptions C12_foreign_no_late_listener.
+
+(* ... and that close() does return: the thread of the other session is inside x.close(), x's own
+   thread is not itself inside a close() of the other session - then steps of the closer and of
+   x's worker alone reach the return, with x released *)
+Theorem C12_foreign_close_returns : forall ta tb ls0 y x,
+  accepts2 (init2 ta tb) ls0 = Some y ->
+  busy y (other x) = true -> busy y x = false ->
+  exists ls y', accepts2 y ls = Some y' /\ In (FRet x) ls /\
+    (forall l, In l ls -> l = FRet x \/ (exists c d, l = FStmt x c d) \/ exists wl, l = Own x wl /\ is_worker_label wl = true) /\
+    busy y' (other x) = false /\ sess y' (other x) = sess y (other x) /\
+    released (sess y' x) /\ client_closed (sess y' x) = true /\ peer_saw_eof (sess y' x) = true.
+Proof. exact c12_foreign_close_returns. Qed.
+Print Assumptions C12_foreign_close_returns.
+
+(* Non-vacuity.  Two Unix-socket sessions, both up.  B has a request in flight and its worker sits in
+   select; A receives a notification and its listener closes B (supervisor).  At B's join statement
+   nothing is enabled for the closer - B's worker is alive - nor for A's own worker (its thread is the
+   closer); B's worker ends (error broadcast: the request is failed), the join is passed, close()
+   returns, A's thread goes on dispatching.  Afterwards no step of B's worker is accepted. *)
+Definition st2_of (ta tb : transport) (ls : list label2) : sys :=
+  match accepts2 (init2 ta tb) ls with Some y => y | None => init2 ta tb end.
+Definition ex2_up : list label :=
+  [OpenHandle; SetConn; Start; SelectBegin; Select true; ReadBegin; Read (RData 1); Dispatch None; HelloOk].
+Definition ex2_sup_prefix : list label2 :=
+  map (Own SA) ex2_up ++ map (Own SB) ex2_up ++
+  [Own SB (Submit 1 true); Own SB SelectBegin;
+   Own SA SelectBegin; Own SA (Select true); Own SA ReadBegin; Own SA (Read (RData 1));
+   FCall SB; FStmt SB SetClosing true; FStmt SB CloseHandle true; FStmt SB ClearConn true].
+Definition ex2_sup_rest : list label2 :=
+  [Own SB (Select false); Own SB (ChkClosing true); Own SB ErrBroadcast; Own SB Exit;
+   FStmt SB JoinW true; FRet SB; Own SA (Dispatch None)].
+Example C12_ex_supervisor_close : let y := st2_of Unix Unix ex2_sup_prefix in
+  accepts2 (init2 Unix Unix) ex2_sup_prefix = Some y /\ in_a y = true /\ in_b y = false /\
+  cprog (sb y) = Some [JoinW] /\ worker (sa y) = WDispatching 1 /\ worker (sb y) = WSelecting /\
+  step2 y (FStmt SB JoinW true) = None /\ step2 y (FStmt SB JoinW false) = None /\ step2 y (FRet SB) = None /\
+  step2 y (Own SA (Dispatch None)) = None /\
+  (let y' := st2_of Unix Unix (ex2_sup_prefix ++ ex2_sup_rest) in
+   accepts2 (init2 Unix Unix) (ex2_sup_prefix ++ ex2_sup_rest) = Some y' /\ In (FRet SB) (ex2_sup_prefix ++ ex2_sup_rest) /\
+   worker (sb y') = WExited /\ connected (sb y') = false /\ socket_open (sb y') = false /\ peer_saw_eof (sb y') = true /\
+   failed (sb y') = [1%N] /\ pending (sb y') = [] /\ client_closed (sb y') = true /\ in_a y' = false /\
+   worker (sa y') = WTop /\ connected (sa y') = true /\
+   step2 y' (Own SB ErrBroadcast) = None /\ step2 y' (Own SB SelectBegin) = None) /\
+  project SB (ex2_sup_prefix ++ ex2_sup_rest) =
+    ex2_up ++ [Submit 1 true; SelectBegin; CloseCall; CStep Client SetClosing true; CStep Client CloseHandle true;
+               CStep Client ClearConn true; Select false; ChkClosing true; ErrBroadcast; Exit;
+               CStep Client JoinW true; CloseRet Client].
+Proof.
+  intro y; repeat match goal with |- _ /\ _ => split | |- let _ := _ in _ => intro end;
+    first [ vm_compute; reflexivity | inlist ].
+Qed.
+
+(* The price of the wait (and what the assumption "listener callbacks return" excludes): two sessions
+   whose listeners close EACH OTHER.  Each session thread sits at the join statement of the other
+   session's close(): no step of either thread is enabled - both close() calls wait for ever.  A
+   close() that does not wait when its caller is a session thread would avoid this, and would break
+   C12_foreign_close_released / C12_foreign_no_late_listener for every supervisor; the source waits. *)
+Definition ex2_mutual : list label2 :=
+  map (Own SA) ex2_up ++ map (Own SB) ex2_up ++
+  [Own SA SelectBegin; Own SA (Select true); Own SA ReadBegin; Own SA (Read (RData 1));
+   Own SB SelectBegin; Own SB (Select true); Own SB ReadBegin; Own SB (Read (RData 1));
+   FCall SB; FCall SA;
+   FStmt SB SetClosing true; FStmt SB CloseHandle true; FStmt SB ClearConn true;
+   FStmt SA SetClosing true; FStmt SA CloseHandle true; FStmt SA ClearConn true].
+Example C12_ex_mutual_close_waits_for_ever : let y := st2_of Unix Unix ex2_mutual in
+  accepts2 (init2 Unix Unix) ex2_mutual = Some y /\ in_a y = true /\ in_b y = true /\
+  cprog (sa y) = Some [JoinW] /\ cprog (sb y) = Some [JoinW] /\
+  forall l, is_thread_label2 l = true -> step2 y l = None.
+Proof.
+  intro y; repeat match goal with |- _ /\ _ => split end; try (vm_compute; reflexivity).
+  intros l T. destruct l as [x l|x|x c d|x].
+  - simpl in T. unfold step2. rewrite T. destruct x; vm_compute; reflexivity.
+  - destruct x; vm_compute; reflexivity.
+  - destruct x, c, d; vm_compute; reflexivity.
+  - destruct x; vm_compute; reflexivity.
 Qed.
